@@ -28,7 +28,7 @@ ASSUMPTIONS = ['python-sat is absent: the solver is the self-checking z3-backed 
                'fix_gate with a single predecessor k means: k is one of the two predecessors']
 REQUIRED = {'mon:find_circuit.returned': 60, 'mon:find_circuit.no_solution': 20, 'planted': 50, 'brute_force_decided': 30,
             'constraint:fix_both': 10, 'constraint:fix_first': 10, 'constraint:fix_second': 10, 'constraint:fix_type': 10,
-            'constraint:forbid_wire': 10, 'need_normalized': 10, 'basis:custom': 5, 'basis:str': 10, 'time_limit_used': 3,
+            'constraint:forbid_wire': 10, 'need_normalized': 10, 'basis:custom': 5, 'basis:str': 10, 'time_limit_used': 3, 'call_order:get_cnf_then_constrain': 5, 'call_order:search_then_constrain': 5,
             'dont_cares': 30, 'continued_after_refused_request': 15, 'solver_starved': 20}
 
 CUR = {'ctx': None, 'case': None}
@@ -449,6 +449,18 @@ def check_case(case, ctx):
         ctx.count('need_normalized')
     try:
         finder = CircuitFinderSat(model, r, basis=basis, need_normalized=case['norm'])
+        # incremental use of one finder: the formula is looked at (or a first search is run) before the constraints are
+        # imposed; the search after the constraints is judged like any other
+        order = case['rseed'] % 7 if case['constraints'] else 0
+        if order == 1:
+            ctx.count('call_order:get_cnf_then_constrain')
+            finder.get_cnf()
+        elif order == 2:
+            ctx.count('call_order:search_then_constrain')
+            try:
+                finder.find_circuit()
+            except (NoSolutionError, SolverTimeOutError):
+                pass
         for c in case['constraints']:
             try:
                 if c[0] == 'fix':
